@@ -39,7 +39,10 @@ RULE_ADDED = (
               ' '
               'Round 10: other spellings of a valid signature (0x, 0X, upper case, blanks): ref'
               'used with the file untouched, or the written file loads and holds that signature'
-              '; hashes with zero bytes at an end. ')
+              '; hashes with zero bytes at an end. '
+              ' '
+              'Round 11: message -o runs over files that already hold signatures (same version,'
+              ' other iteration, other image). ')
 RULE = RULE + " " + RULE_ADDED.strip()
 ASSUMPTIONS = [
     "own Keccak-256 (pv/oracle/hashes.py) and OpenSSL verification are the oracles",
@@ -242,6 +245,42 @@ def run_case(acc, cseed, tmpdir):
         acc.count("signatures_verified")
         if not verify_der(g1.pub65(sk).hex(), bytes.fromhex(sig), digest):
             bad("produced-signature-does-not-verify", iteration=it)
+    # `message -o` over a file that already holds signatures (for this very version, for
+    # the same image at another iteration, for another image): what it leaves is an
+    # authorization for the version it was given - and no signature made for any other text
+    if nsig and rng.random() < 0.5:
+        import shutil as _sh
+        o4 = os.path.join(tmpdir, "auth-regenerated.json")
+        _sh.copyfile(out, o4)
+        which = rng.choice(["same-version", "other-iteration", "other-iteration", "other-image"])
+        a4, h4, i4 = app, app_hash.hex(), it
+        if which == "other-iteration":
+            i4 = (it + rng.choice([1, 2, 255, 65535])) % 65536
+        elif which == "other-image":
+            a4, h4 = app2, ihex.expected_hash(areas2).hex()
+        code, so = run_main(signapp.main, ["signapp.py", "message", "-a", a4, "-i", str(i4),
+                                           "-o", o4])
+        acc.evaluations += 1
+        acc.count("message_runs_over_a_file_with_signatures")
+        try:
+            d4 = json.load(open(o4))
+        except Exception:
+            d4 = {}
+        t4 = "RSK_powHSM_signer_%s_iteration_%d" % (h4, i4)
+        dg4 = keccak256(b"\x19Ethereum Signed Message:\n" + str(len(t4)).encode() + t4.encode())
+        if code == 0:
+            if d4.get("signer") != {"hash": h4, "iteration": i4}:
+                bad("message-run-over-existing-file-names-another-version:%s" % which,
+                    doc=str(d4)[:200])
+            else:
+                for sg in d4.get("signatures", []):
+                    if not any(verify_der(g1.pub65(sk_).hex(), bytes.fromhex(sg), dg4)
+                               for sk_ in keys):
+                        bad("message-run-carries-signatures-made-for-another-text:%s" % which,
+                            signatures=len(d4.get("signatures", [])))
+                        break
+        elif open(o4).read() != open(out).read():
+            bad("refused-message-run-changed-the-file:%s" % which)
     # `key` as the first operation: it creates the file for the version it is given
     if rng.random() < 0.3:
         o3 = os.path.join(tmpdir, "auth-fresh.json")
